@@ -84,6 +84,7 @@ var baseNames = map[string]string{
 var ipTok = map[string][2]string{ // token -> {IPv4, IPv6}
 	"o4": {"192.0.2.1", ""}, "o4b": {"192.0.2.2", ""}, "o4c": {"192.0.2.3", ""},
 	"o6": {"", "2001:db8::1"}, "o6b": {"", "2001:db8::2"}, "o6c": {"", "2001:db8::3"},
+	"x4": {"192.0.2.50", ""}, "x4b": {"192.0.2.51", ""}, "x4c": {"192.0.2.52", ""}, "x6": {"", "2001:db8::50"}, "x6b": {"", "2001:db8::51"}, "x6c": {"", "2001:db8::52"},
 	"t4": {"198.51.100.4", ""}, "t4b": {"198.51.100.5", ""}, "t4c": {"198.51.100.6", ""}, "t6": {"", "2001:db8:7::6"}, "t6b": {"", "2001:db8:7::7"}, "t6c": {"", "2001:db8:7::8"},
 	"evil1": {"203.0.113.66", "2001:db8:bad::66"}, "evil2": {"203.0.113.67", "2001:db8:bad::67"}, "evil9": {"203.0.113.99", "2001:db8:bad::99"},
 }
